@@ -172,6 +172,15 @@ M = [
                 interpreter().pop(stack()[-1])
                 interpreter().load(conclusion_name, conclusion)'''),
  ('mm_antecedents_forward_order', 'C16', PY + 'metamath/translate.py', '''                for eh, pat in reversed(saved_antecedents):''', '''                for eh, pat in saved_antecedents:'''),
+ # ---------------- K hint streams (C20)
+ ('k_hints_refusal_swallowed', 'C20', PY + 'k/execution_proof_generation.py', '''            if isinstance(hint.axiom, KRewritingRule):
+                proof_expr.rewrite_event(hint.axiom, hint.substitutions)''', '''            if isinstance(hint.axiom, KRewritingRule):
+                try:
+                    proof_expr.rewrite_event(hint.axiom, hint.substitutions)
+                except AssertionError:
+                    continue'''),
+ ('k_hints_config_taken_from_stream', 'C20', PY + 'k/execution_proof_generation.py', '''                proof_expr.rewrite_event(hint.axiom, hint.substitutions)''', '''                proof_expr._curr_config = hint.configuration_before
+                proof_expr.rewrite_event(hint.axiom, hint.substitutions)'''),
 ]
 
 EXTRA_PREAMBLE = {
